@@ -489,7 +489,7 @@ class Runner:
         logging.getLogger("asyncio").setLevel(logging.CRITICAL)
         hist = self.hist
         self.info = labels_info(hist)
-        self.wd = tempfile.mkdtemp(prefix="c10-")
+        self.wd = tempfile.mkdtemp(prefix="c10-", dir="/dev/shm" if os.path.isdir("/dev/shm") and os.access("/dev/shm", os.W_OK) else None)
         self.locs = {}
         self.arrs = {}        # label -> cubed array (None: no user handle)
         self.shadow = {}      # label -> NumPy value fixed at build time
